@@ -83,6 +83,11 @@ class Run:
                     # it, and swap the committed copy back afterwards (restore_generated)
                     self.alt_restore = getattr(self, "alt_restore", {})
                     self.alt_restore[path] = old
+                    # crash safety: keep the committed copy on disk until it has been swapped back
+                    bpath = os.path.join(OUT, "alt-backup", rel.replace(os.sep, "__"))
+                    os.makedirs(os.path.dirname(bpath), exist_ok=True)
+                    with open(bpath, "w") as bf:
+                        bf.write(old if old is not None else "")
                     with open(path, "w") as f:
                         f.write(content)
                     self.say("[alt] regenerated %s from %s (will be restored)" % (rel, common.REPO))
@@ -122,6 +127,10 @@ class Run:
                 with open(path, "w") as f:
                     f.write(old)
         self.alt_restore = {}
+        bdir = os.path.join(OUT, "alt-backup")
+        if os.path.isdir(bdir):
+            for fn in os.listdir(bdir):
+                os.remove(os.path.join(bdir, fn))
         targets = list(self.mod.PROOF_MODULES) + ["cv_" + self.mod.BIN]
         rc, _ = sh(["lake", "build"] + targets, cwd=LEAN, timeout=3600)
         self.alt_restored_build = (rc == 0)
@@ -345,6 +354,16 @@ def main(argv):
             else:
                 fcntl.flock(lk, fcntl.LOCK_EX)
             try:
+                if got:
+                    # leftovers of an interrupted CV_REPO run: put the committed generated files back first
+                    bdir = os.path.join(OUT, "alt-backup")
+                    if os.path.isdir(bdir):
+                        for fn in os.listdir(bdir):
+                            dst = os.path.join(LEAN, fn.replace("__", os.sep))
+                            with open(os.path.join(bdir, fn)) as bf, open(dst, "w") as df:
+                                df.write(bf.read())
+                            os.remove(os.path.join(bdir, fn))
+                            run.say("[recover] restored %s from an interrupted CV_REPO run" % fn)
                 run.alt_can_rebuild = bool(common.ALT and got)
                 run.extract()
                 run.forbidden_scan()
